@@ -25,7 +25,7 @@ Lemma Rabs_sq x : Rabs x * Rabs x = x * x.
 Proof. rewrite <- Rabs_mult. apply Rabs_pos_eq. nra. Qed.
 
 Ltac abs_consts :=
-  repeat rewrite Rabs_mult;
+  unfold Rdiv; repeat rewrite Rabs_mult; repeat rewrite Rabs_inv; repeat rewrite Rabs_mult;
   repeat match goal with
   | |- context [Rabs (IZR ?z)] =>
       first [ rewrite (Rabs_pos_eq (IZR z)) by lra | rewrite (Rabs_left (IZR z)) by lra ]
@@ -45,7 +45,14 @@ Ltac norm_atoms :=
   end.
 Ltac v3_cbv := cbv [mixed vsub vneg dot cross vadd vscale vzero Vec3.vx Vec3.vy Vec3.vz] in *.
 Ltac v3_destruct := repeat match goal with v : V3 |- _ => destruct v end; v3_cbv.
-Ltac v3_finish := v3_destruct; first [ ring | apply v3_eq; v3_cbv; ring ].
+Ltac v3_finish := v3_destruct; unfold Rdiv; first [ ring | apply v3_eq; v3_cbv; ring ].
+Ltac nz_side :=
+  first [ assumption | lra
+        | let Hz := fresh "Hz" in intro Hz;
+          match goal with H : _ <> 0 |- _ => apply H; rewrite ?Hz; ring end ].
+Ltac v3_lin :=
+  repeat match goal with v : V3 |- _ => destruct v end; apply v3_eq; v3_cbv;
+  first [ unfold Rdiv; ring | field; repeat split; nz_side ].
 Ltac v3_nsatz :=
   v3_destruct;
   first [ ring | timeout 20 (solve [nsatz]) | apply v3_eq; v3_cbv; first [ ring | timeout 20 (solve [nsatz]) ] ].
@@ -65,7 +72,7 @@ def rand_env(rng, nv, ns, nf=0, small=True):
                 return v
     scal = lambda: Fraction(rng.choice([x for x in range(lo, hi + 1) if x != 0]))
     return vx.Env([vec() for _ in range(nv)], [scal() for _ in range(ns)], scal(), [vec() for _ in range(nf)],
-        [vec() for _ in range(nf)])
+        [vec() for _ in range(nf)], [vec() for _ in range(nf)])
 
 
 def find_factor(P, Q):
@@ -83,11 +90,12 @@ def find_factor(P, Q):
         return None
     if any(s.name[0] in "vfd" or s.name.startswith("N[") for s in k.free_symbols):
         return None
-    if not k.is_polynomial(*k.free_symbols):
+    num, den = sympy.fraction(k)
+    if not (num.is_polynomial(*num.free_symbols) and den.is_polynomial(*den.free_symbols)):
         return None
     if any(sympy.expand(p - k * q) != 0 for p, q in zip(P, Q)):
         return None
-    return sympy.factor_terms(k)
+    return sympy.factor_terms(k) if den == 1 else k
 
 
 def norm_script(recipe_in, out_ctx: vx.OutCtx):
@@ -107,14 +115,14 @@ def norm_script(recipe_in, out_ctx: vx.OutCtx):
         done.add(text)
         P = vx.comps_of_recipe(x)
         if all(sympy.expand(p) == 0 for p in P):
-            steps.append(f"replace (norm {text}) with 0 by (replace {text} with vzero by v3_ring; symmetry; apply norm_zero).")
+            steps.append(f"replace (norm {text}) with 0 by (replace {text} with vzero by v3_lin; symmetry; apply norm_zero).")
             continue
         for qtext, Q in outs:
             k = find_factor(P, Q)
             if k is None or k == "zero":
                 continue
             if k == 1:
-                steps.append(f"replace (norm {text}) with (norm {qtext}) by (f_equal; v3_ring).")
+                steps.append(f"replace (norm {text}) with (norm {qtext}) by (f_equal; v3_lin).")
             else:
                 try:
                     kt = vx.scalar_poly_to_coq(k)
@@ -127,7 +135,7 @@ def norm_script(recipe_in, out_ctx: vx.OutCtx):
                             break
                 except vx.Unsupported:
                     continue
-                steps.append(f"replace (norm {text}) with (Rabs {kt} * norm {qtext}) by (rewrite <- norm_scale; f_equal; v3_ring).")
+                steps.append(f"replace (norm {text}) with (Rabs {kt} * norm {qtext}) by (rewrite <- norm_scale; f_equal; v3_lin).")
             break
     return steps
 
@@ -139,8 +147,10 @@ def process(job):
     res = {"id": job.get("id"), "mode": job["mode"], "rank": job.get("rank"), "creation": job.get("creation")}
     from symplyphysics.core.experimental import vectors as V  # pylint: disable=import-outside-toplevel
     try:
-        o = vx.Objs(job["nv"], job["ns"], job.get("nf", 0), rank=job.get("rank"), creation=job.get("creation"))
+        o = vx.Objs(job["nv"], job["ns"], job.get("nf", 0), rank=job.get("rank"), creation=job.get("creation"),
+            spread=job.get("spread"), spread_rng=__import__("random").Random(job.get("spread_seed", 0)))
         res["id_rank"] = o.id_rank()
+        res["between"] = o.between
         fired = []
         undo = install_trace(fired) if job.get("trace", True) else (lambda: None)
         try:
@@ -151,6 +161,13 @@ def process(job):
             elif job["mode"] == "diff":
                 base = vx.build(recipe, o)
                 obj = base.diff(o.par) if not vx.is_vec(recipe) else V.vector_diff(base, o.par)
+            elif job["mode"] == "diff2":
+                base = vx.build(recipe, o)
+                if job.get("twice_form", "nested") == "nested":
+                    one = base.diff(o.par) if not vx.is_vec(recipe) else V.vector_diff(base, o.par)
+                    obj = sympy.sympify(one).diff(o.par) if not vx.is_vec(recipe) else V.vector_diff(one, o.par)
+                else:
+                    obj = base.diff(o.par, 2) if not vx.is_vec(recipe) else V.vector_diff(base, o.par, 2)
             else:
                 raise ValueError(job["mode"])
         finally:
@@ -170,7 +187,11 @@ def process(job):
         res.update(status="exception", error=f"{type(e).__name__}: {e}"[:300])
         return res
     res["out_str"] = str(obj)[:400]
-    spec = vx.diff_recipe(recipe) if job["mode"] == "diff" else recipe
+    spec = recipe
+    if job["mode"] == "diff":
+        spec = vx.diff_recipe(recipe)
+    elif job["mode"] == "diff2":
+        spec = vx.diff_recipe(vx.diff_recipe(recipe))
     want = "v" if vx.is_vec(recipe) else "s"
     c = vx.OutCtx(o)
     try:
@@ -189,10 +210,14 @@ def process(job):
     atoms["par"] = True
     in_coq = vx.coq_of_recipe(spec)
     hyps = ""
+    quotient = False
     has_norm = bool(vx.norm_args(spec)) or bool(c.norm_args) or bool(c.abs_args)
-    if job["mode"] == "diff":
+    if job["mode"] in ("diff", "diff2"):
         nz = sorted({vx.coq_of_recipe(x) for x in vx.norm_args(recipe)})
         hyps = "".join(f"norm {x} <> 0 -> " for x in nz)
+        quotient = bool(nz)
+    dens = sorted({vx.coq_of_recipe(d) for d in sdiv_dens(spec)})
+    hyps += "".join(f"{d} <> 0 -> " for d in dens)
     res["statement"] = f"forall {vx.binder(atoms)}, {hyps}{in_coq} = {out_coq}"
     if has_norm:
         try:
@@ -200,7 +225,7 @@ def process(job):
         except Exception as e:  # pylint: disable=broad-except
             steps = [f"(* guidance failed: {type(e).__name__} *)"]
         res["proof"] = "intros.\n" + "\n".join(steps) + ("\n" if steps else "") + \
-            ("try field_simplify_eq; try assumption.\n" if hyps else "") + "timeout 90 tv_norms."
+            ("try field_simplify_eq; try assumption.\n" if quotient else "") + "timeout 90 tv_norms."
     else:
         res["proof"] = "intros. timeout 60 v3_finish."
     res["has_norm"] = has_norm
@@ -223,6 +248,17 @@ def process(job):
     res["status"] = "ok"
     res["dt"] = round(time.time() - t0, 3)
     return res
+
+
+def sdiv_dens(r, acc=None):
+    if acc is None:
+        acc = []
+    if r[0] == "sdiv":
+        acc.append(r[2])
+    for x in r[1:]:
+        if isinstance(x, tuple):
+            sdiv_dens(x, acc)
+    return acc
 
 
 def totuple(x):
@@ -252,10 +288,23 @@ def install_trace(fired: list):
         return classmethod(wrapper)
     V.VectorCross._eval_vector_dot = mk(orig_dot, "dot")
     V.VectorCross._eval_vector_cross = mk(orig_cross, "cross")
+    orig_sws = V.sort_with_sign
+
+    def sws(it, key=None):
+        sign, out = orig_sws(it, key=key)
+        if len(out) == 3 and sign != 0:
+            kinds = [V.is_atomic_vector(x) for x in out]
+            if kinds == [True, False, True]:
+                fired.append("mixed_composite_middle")
+            elif not all(kinds):
+                fired.append("mixed_composite_other")
+        return sign, out
+    V.sort_with_sign = sws
 
     def undo():
         V.VectorCross._eval_vector_dot = orig_dot
         V.VectorCross._eval_vector_cross = orig_cross
+        V.sort_with_sign = orig_sws
     return undo
 
 
